@@ -175,6 +175,9 @@ func (b *respBody) Close() error {
 
 func (t *InProc) RoundTrip(req *http.Request) (*http.Response, error) {
 	n := t.n.Add(1)
+	if err := req.Context().Err(); err != nil {
+		return nil, err // net/http does not send a request whose context is already done
+	}
 	if t.Before != nil {
 		if resp, err := t.Before(req, n); resp != nil || err != nil {
 			if resp != nil && resp.Request == nil {
